@@ -33,7 +33,7 @@ TABLE = [
     (r"^UnsealedState::apply_tip_909\|assert\|Overflow\(Shr\)\|1048576,Div\(", "assume", "halving index < 128, i.e. height < TIP-909 + 1.28e8 (bounded horizon; latent afterwards)"),
     (r"^UnsealedState::apply_tip_909\|assert\|Overflow\(Sub\)\|Shr\(1048576", "inv", "x − (x >> k) and x − x/2 cannot underflow"),
     (r"^UnsealedState::apply_tip_909\|extern\|<melstructs::CoinValue as std::ops::AddAssign>::add_assign", "assume", "fee pool + MEL taken from the pool ≤ MEL supply ≤ 2^127"),
-    (r"^UnsealedState::apply_tip_909\|extern\|swap_many\|", "assume", "built-in pools keep non-zero reserves (created with 10^9 per side; swaps never drain a side to zero)"),
+    (r"^UnsealedState::apply_tip_909\|extern\|swap_many\|", "priced-pool", "MEL/SYM is created by create_builtins at the chain's first seal with 10^9 unowned liquidity per side (C16.R2) and swaps are assumed never to drain a side to zero; ERG/SYM can be pre-empted by users before TIP-902 and emptied (finding D19), so its use is guarded by a reserve test (evaluated here)"),
     (r"^UnsealedState::apply_tip_909\|unwrap\|unwrap\|SmtMapping::get\(\$1\.pools, PoolKey::new\(Denom::(Mel|Erg)\{\}, Denom::Sym\{\}\)\)", "inv", "create_builtins dominates in seal (C16.R1/R2); ERG/SYM exists because TIP-902 (180000) activates before TIP-909 (950000) and both use the same activation rule"),
     (r"^UnsealedState::collect_proposer_action_fee\|extern\|<melstructs::CoinValue as std::ops::Add>::add", "assume", "fee_pool/65536 + tips ≤ MEL supply ≤ 2^127"),
     (r"^UnsealedState::collect_proposer_action_fee\|extern\|<melstructs::CoinValue as std::ops::SubAssign>::sub_assign\|self\.fee_pool,Shr\(self\.fee_pool\.0, 16\)", "inv", "x − (x >> 16) cannot underflow"),
@@ -67,7 +67,7 @@ TABLE = [
     (r"^melmint::multiply_frac\|extern\|new\|Ratio::numer\(\$2\),Ratio::denom\(\$2\)", "inv", "the denominator of an existing Ratio is non-zero"),
     (r"^melmint::process_(swaps|deposits|withdrawals)_for_single_pool(::c\d)?\|index\|index(_mut)?\|(\$2|elem\(\$3\))\.outputs,[01]$", "selected", "members of the list passed the selection closure, which requires enough outputs (verified here by forcing the selection's length tests)"),
     (r"^melmint::process_deposits_for_single_pool\|extern\|deposit\|pool_state", "assume", "both deposited totals are > 0 (guard) and a pool with outstanding liquidity has non-zero reserves"),
-    (r"^melmint::process_pegging\|extern\|(<num::rational::Ratio<T> as std::ops::Div>::div|implied_price|recip|swap_many)\|", "assume", "built-in pools keep non-zero reserves; the inflator is positive"),
+    (r"^melmint::process_pegging\|extern\|(<num::rational::Ratio<T> as std::ops::Div>::div|implied_price|recip|swap_many)\|", "priced-pool", "MEL/SYM and MEL/ERG keep non-zero reserves (created first with unowned liquidity, C16.R2; swaps assumed never to drain a side); the inflator is positive; the ERG/SYM price is used only behind a reserve test (evaluated here: D19)"),
     (r"^melmint::process_pegging\|unwrap\|unwrap\|SmtMapping::get\(state\.pools, PoolKey::new\(", "inv", "create_builtins ran first in preseal_melmint (same tip_902 condition for ERG/SYM)"),
     (r"^melmint::process_swaps_for_single_pool\|extern\|swap_many\|pool_state", "guarded-swap", "both sides are non-zero after adding the inputs (verified here by forcing the guard)"),
     (r"^melmint::process_(swaps|withdrawals)_for_single_pool\|unwrap\|unwrap\|SmtMapping::get\(\$2\.pools, \$1\)", "inv", "the pool key comes from selected requests, whose selection requires state.pools.get(key) (C15.R1 pool-exists); pools are never deleted (C16.R3)"),
@@ -109,6 +109,56 @@ def _selected_ok(prog, site):
         return False
     for n in range(i + 1):
         if not c15._selected_unreachable(c, somes, finals, {a: (1 if fn(n) else 0) for a, fn in atoms}):
+            return False
+    return True
+
+
+def _is_ergsym(s_):
+    return "Denom::Erg{}, Denom::Sym{}" in s_ or "Denom::Sym{}, Denom::Erg{}" in s_
+
+
+def _resolved_sig(b, e):
+    """sig of e with local variables replaced by what they were initialised with (one level)"""
+    out = sig(e)
+    for x in mir.walk(e):
+        if x[0] == "var":
+            ds = q.var_def_exprs(b, x[1])
+            if len(ds) >= 1:
+                out += " <" + " | ".join(sig(d[1]) for d in ds[:2]) + ">"
+    return out
+
+
+def _priced_pool_ok(site):
+    """True: the site does not use the ERG/SYM pool, or is unreachable when either of its reserves is zero.  False: it uses ERG/SYM unguarded.
+    None: not decided."""
+    b = site.body
+    full = _resolved_sig(b, site.expr) if site.expr is not None else " ".join(_resolved_sig(b, o) for o in site.operands)
+    uses = _is_ergsym(full)
+    if not uses:
+        # a value computed from the ERG/SYM price further up (x_sd): every use in process_pegging after the TIP-902 branch depends on it
+        uses = b.nname.endswith("process_pegging") and not ("Denom::Mel{}" in full)
+    if not uses:
+        return True
+    want = lambda c: c.startswith("Eq(0, ") and (c.endswith(".lefts)") or c.endswith(".rights)"))
+    sides = {}
+    for e, c, bi in q.pick_atoms(b, want):
+        if not want(c):
+            continue
+        cm = q.as_cmp(e[1] if e[0] == "not" else e)
+        if not cm:
+            continue
+        subj = cm[2] if q.const_val(cm[1]) == 0 else cm[1]
+        if _is_ergsym(_resolved_sig(b, subj)):
+            sides.setdefault("lefts" if c.endswith(".lefts)") else "rights", []).append(e)
+    if set(sides) != {"lefts", "rights"}:
+        return False
+    # the ERG/SYM price is used only once TIP-902 is active: decide under tip_902() = true (all calls of it agree)
+    t902 = {e: 1 for bi, e in q.call_exprs(b, "UnsealedState::tip_902")}
+    for side, es in sides.items():
+        tbl = dict(t902)
+        tbl.update({e: 1 for e in es})
+        f = force(b, tbl)
+        if site.bb in f.reach:
             return False
     return True
 
@@ -191,6 +241,13 @@ def r1_inventory(ctx):
             from rules.props import c01 as _c01
             n0 = len([x for x in r.instances if x.verdict == "violation"]) if hasattr(r, "instances") else None
             _c01.totals_gate(ctx, r, "site/" + key[:150])
+        elif verdict == "priced-pool":
+            okp = _priced_pool_ok(s)
+            if okp is None:
+                r.undecided("site/" + key[:150], "use of a pool's price: guard not decided", s.where())
+            else:
+                r.check(okp, "site/" + key[:150], "inv: " + why, "%s uses the reserves of the ERG/SYM pool as a divisor with no test that they are non-zero: a pool pre-empted by a user before TIP-902 "
+                        "and then emptied makes every later seal panic (%s)" % (s.body.nname.split("::")[-1], s.what), s.where())
         elif verdict == "guarded-swap":
             ok = _swap_guard_ok(s)
             r.check(ok, "site/" + key[:150], "inv: " + why, "swap_many can be reached with an empty side (division by zero in PoolState::swap_many)", s.where())
